@@ -36,7 +36,7 @@ TraceInit ==
     /\ xobs = [x \in DOMAIN Execs |-> NoX]
     /\ segopen = [f \in {"asyncio", "trio", "threading"} |-> 0]
     /\ marks = [quiescent |-> FALSE, timeouts |-> 0, blocked |-> FALSE, coroafterblock |-> 0, failedatq |-> FALSE, lostatq |-> FALSE,
-                stuckatq |-> FALSE, exfail |-> FALSE, shutstuck |-> FALSE, restartfail |-> FALSE, stall |-> FALSE]
+                stuckatq |-> FALSE, exfail |-> FALSE, execstuck |-> FALSE, shutstuck |-> FALSE, restartfail |-> FALSE, stall |-> FALSE]
 
 Step_ == l <= Len(Tr.events) /\ l' = l + 1 /\ UNCHANGED tid
 Keep(S) == UNCHANGED S
@@ -95,7 +95,7 @@ TAcceptCall == /\ Ev.e = "AcceptCall"
                        /\ result' = [result EXCEPT ![Ev.r] = [kind |-> "guard_error", cause |-> "-"]]
                        /\ UNCHANGED guard
                \* rejected although no other runner is accepting: the guard was not released
-               /\ marks' = [marks EXCEPT !.restartfail = @ \/ (~Ev.ok /\ \A r2 \in 1..2 : phase[r2] \in {"idle", "ended"})]
+               /\ marks' = [marks EXCEPT !.restartfail = @ \/ (~Ev.ok /\ \A r2 \in Runners : phase[r2] \in {"idle", "ended"})]
                /\ UNCHANGED <<pst, starts, endhow, cleanleft, adoptret, sigint, shut, xst, h, where, xobs, segopen>>
                /\ nc' = (nc \/ ~AcceptCall(Ev.r))
 TRunningSet == /\ Ev.e = "RunningSet"
@@ -156,7 +156,8 @@ TMark == /\ Ev.e \in {"Quiescent", "Timeout", "Block", "CleanupDone"}
                                           !.lostatq = (phase[1] = "running" /\ \E p \in Payloads : pst[p] \in {"submitted"} /\ adoptret[p] = "ok"),
                                           !.stuckatq = (Triggered /\ phase[1] \in {"running", "closing", "closed"}),
                                           !.exfail = (Failed = {} /\ ~StopRequested /\ phase[1] # "running" /\ phase[1] # "idle"),
-                                          !.shutstuck = (shut = "called")]
+                                          !.shutstuck = (shut = "called"),
+                                          !.execstuck = (\E x \in DOMAIN Execs : xst[x] \in {"called", "started", "finished"})]
                        [] Ev.e = "Timeout" -> [marks EXCEPT !.timeouts = @ + 1,
                                                             !.stall = @ \/ (Ev.what = "command" /\ phase[1] = "running" /\ ~Triggered /\ marks.blocked)]
                        [] Ev.e = "Block" -> [marks EXCEPT !.blocked = TRUE]
@@ -194,12 +195,13 @@ FailStopObserved == ~marks.failedatq
 ExactlyOnceObserved == ~marks.lostatq
 TerminationObserved == ~marks.stuckatq
 ExecNotAFailureObserved == ~marks.exfail
+ExecReturnsObserved == ~marks.execstuck
 ShutdownReturnsObserved == ~marks.shutstuck
 RestartPossible == ~marks.restartfail
 BlockingDoesNotStall == ~marks.stall
 \* shutdown / SIGINT without any failure: accept() returns normally
 StopReturnsNormally == (Ended /\ Failed = {} /\ Kbd = {} /\ (sigint \/ shut # "none")) => result[1].kind = "returned"
-SecondAcceptRejectedCleanly == \A r \in 1..2 : result[r].kind # "guard_wrong"
+SecondAcceptRejectedCleanly == \A r \in Runners : result[r].kind # "guard_wrong"
 ShutdownDoesNotRaise == shut # "raised"
 
 Mon(name, ok) == ok \/ PrintT(<<"PV", tid, l - 1, name>>)
@@ -225,6 +227,7 @@ Monitor ==
     /\ Mon("ShutdownDoesNotRaise", ShutdownDoesNotRaise)
     /\ Mon("TerminationObserved", TerminationObserved)
     /\ Mon("ExecNotAFailureObserved", ExecNotAFailureObserved)
+    /\ Mon("ExecReturnsObserved", ExecReturnsObserved)
     /\ Mon("ShutdownReturnsObserved", ShutdownReturnsObserved)
     /\ Mon("RestartPossible", RestartPossible)
     /\ Mon("BlockingDoesNotStall", BlockingDoesNotStall)
